@@ -167,6 +167,7 @@ pub fn random_path(rng: &mut Rng, class: PathClass) -> String {
 /// devices again. Exercises state that needs many calls to build up.
 fn many_devices_scenario(rng: &mut Rng, tier: Tier) -> Scenario {
     let mut cfg = subject_cfg(rng, tier);
+    cfg.hostile_strings = false; // these programs are read back
     cfg.matchers = cfg.matchers.min(6);
     cfg.unsupported = 0;
     let subject = gen::expression(rng, &cfg);
@@ -243,6 +244,7 @@ pub fn scenario(rng: &mut Rng, tier: Tier) -> Scenario {
     let mut subjects = vec![];
     for i in 0..n_subjects {
         let mut cfg = subject_cfg(rng, tier);
+    cfg.hostile_strings = false; // these programs are read back
         cfg.matchers = cfg.matchers.min(12);
         cfg.unsupported = 0;
         cfg.placeholder_strings = rng.chance(1, 2);
@@ -279,14 +281,41 @@ pub fn scenario(rng: &mut Rng, tier: Tier) -> Scenario {
     }
     // spellings of one device (doubled and trailing separators, ./, /.): rendered on the same
     // expression they are still different path strings
-    if rng.chance(1, 4) {
+    if rng.chance(1, 3) {
         let base = paths[1 + rng.usize_below(paths.len() - 1)].clone();
         if !base.is_empty() {
-            let alias = match rng.below(5) {
+            // a separator inside the path (not the first one), if there is one
+            let inner: Vec<usize> = base.char_indices().filter(|(i, c)| *c == '/' && *i > 0).map(|(i, _)| i).collect();
+            let at_inner = |with: &str, rng: &mut Rng| -> String {
+                match inner.is_empty() {
+                    true => format!("{base}{with}"),
+                    false => {
+                        let i = inner[rng.usize_below(inner.len())];
+                        format!("{}{}{}", &base[..i], with, &base[i + 1..])
+                    }
+                }
+            };
+            let alias = match rng.below(9) {
                 0 => format!("{base}/"),
                 1 => base.replacen('/', "//", 1),
                 2 => format!("./{base}"),
                 3 => format!("{base}/."),
+                4 => at_inner("/./", rng),
+                5 => at_inner("//", rng),
+                6 => at_inner("/x/../", rng),
+                7 => {
+                    // one letter in the other case
+                    let letters: Vec<usize> = base.char_indices().filter(|(_, c)| c.is_ascii_alphabetic()).map(|(i, _)| i).collect();
+                    match letters.is_empty() {
+                        true => base.to_uppercase(),
+                        false => {
+                            let i = letters[rng.usize_below(letters.len())];
+                            let c = base[i..].chars().next().unwrap();
+                            let flipped = if c.is_ascii_lowercase() { c.to_ascii_uppercase() } else { c.to_ascii_lowercase() };
+                            format!("{}{}{}", &base[..i], flipped, &base[i + 1..])
+                        }
+                    }
+                }
                 _ => base.to_uppercase(),
             };
             if !paths.contains(&alias) {
@@ -333,6 +362,25 @@ pub fn scenario(rng: &mut Rng, tier: Tier) -> Scenario {
             }
         }
     }
+    // twins: two device names of equal length that collide under the commonest family of hand-written
+    // string hashes, `acc * b + byte` with a small multiplier (31 and 33 of Java and K&R, 37, 101,
+    // 127, 131, 137): "Aa"/"BB" folklore, computed for each base. A memo keyed by such a digest
+    // answers the second with the program of the first.
+    if rng.chance(1, 4) {
+        const TWINS: [(&str, &str); 21] = [
+            ("0O", "10"), ("0P", "11"), ("Aa", "BB"), ("0Q", "10"), ("0R", "11"), ("0S", "12"), ("0U", "10"), ("0V", "11"), ("0W", "12"),
+            ("1l0", "0Е"), ("1l1", "0Ж"), ("1l2", "0З"), ("1E0", "0ï"), ("1E1", "0ð"), ("1E2", "0ñ"), ("1A0", "0ó"), ("1A1", "0ô"), ("1A2", "0õ"),
+            ("1H0", "0й"), ("1H1", "0к"), ("1H2", "0л"),
+        ];
+        let (u, v) = *rng.pick(&TWINS);
+        let (head, tail) = *rng.pick(&[("/dev/mapper/vg", "-mdt0"), ("/srv/lustre/", "/mdt0.img"), ("mdt", ""), ("/dev/disk/by-label/fs:", "")]);
+        for t in [u, v] {
+            let p = format!("{head}{t}{tail}");
+            if !paths.contains(&p) {
+                paths.push(p);
+            }
+        }
+    }
     let n_slots = rng.range(1, 3) as usize;
     let mut ops = vec![];
     // every slot is filled early so that renders have something to work on
@@ -373,6 +421,7 @@ pub fn scenario(rng: &mut Rng, tier: Tier) -> Scenario {
             Op::Compile { subj: rng.usize_below(n_subjects), slot: rng.usize_below(n_slots), script: vec![0, 1, 1], twice: false }
         } else if take(w_unrelated) {
             let mut cfg = subject_cfg(rng, Tier::Quick);
+    cfg.hostile_strings = false; // these programs are read back
             cfg.placeholder_strings = rng.chance(1, 2);
             Op::Unrelated { texts: vec![gen::expression(rng, &cfg)], script: vec![] }
         } else if take(w_thread) {
